@@ -268,6 +268,11 @@ class Observation:
         if raw is None:
             self.rows[name] = None
             return
+        # a table can be scanned any number of times on one connection: the second scan yields the same rows
+        cur2, raw2 = self.execute(name, parsed(text), 'all columns (second scan)')
+        if raw2 is not None and (len(raw2) != len(raw) or repr(raw2) != repr(raw)):
+            self.problem('%s:rescan' % name, 'a second scan of the table on the same connection yields different rows',
+                         len(raw), len(raw2))
         desc = cur.description
         names = [d.name for d in desc]
         if names != cols + [n for n, _, _ in extra]:
